@@ -1,5 +1,7 @@
 //@unit DEC — built-in decorators (src/render/text_renderer.rs:1803-2103): TrivialDecorator returns nothing but document text
 use vstd::prelude::*;
+macro_rules! html_trace { ($($t:tt)*) => {} }
+macro_rules! html_trace_quiet { ($($t:tt)*) => {} }
 verus! {
 struct TrivialDecorator { x: u8 }
 // `"".to_string()` / `title.to_string()` (A3)
